@@ -163,6 +163,14 @@ Store(size, kinds, evs, revs, tl, rl) ==
   /\ act' = [name |-> "Store", size |-> size, kinds |-> kinds, evs |-> evs, revs |-> revs]
   /\ res' = [k |-> "ok"]
 
+(* the node restarts (new objects over the same database; gracefully or not): everything an
+   accessor answers from is in the database, so every answer is what it was *)
+Restart(graceful) ==
+  /\ Len(chain) > 0
+  /\ act' = [name |-> "Restart", graceful |-> graceful]
+  /\ res' = [k |-> "ok"]
+  /\ UNCHANGED <<chain, db>>
+
 Init ==
   /\ chain = <<>>
   /\ db = [height |-> -1, blobs |-> <<>>, headers |-> <<>>, byHash |-> {}, txIndex |-> {}, sus |-> <<>>, l1 |-> {}]
@@ -173,6 +181,8 @@ Next ==
     \E kinds \in Seqs(Kinds, size), evs \in Seqs(EvCounts, size), revs \in Seqs(Revs, size),
        tl \in Seqs(Lens, size), rl \in Seqs(Lens, size) :
       Store(size, kinds, evs, revs, tl, rl)
+
+NextR == Next \/ \E g \in BOOLEAN : Restart(g)
 
 Spec == Init /\ [][Next]_vars
 
@@ -220,6 +230,8 @@ ProjectionsAgree ==
     /\ TxHashes(n) = Found([i \in 1..Size(n) |-> TxHash(n, i - 1)])
     /\ TxEvents(n) = Found([i \in 1..Size(n) |-> EventsProj(chain[n + 1].rcs[i])])
     /\ \A i \in 0..(Size(n) - 1) : StatusByIndex(n, i) = Found(StatusProj(chain[n + 1].rcs[i + 1]))
+
+RestartIsNoOp == [][act'.name = "Restart" => UNCHANGED <<chain, db>>]_vars
 
 (* layout facts the accessors rely on *)
 Layout ==
